@@ -433,6 +433,16 @@ func baseToNumber(L *LState) int {
 		} else {
 			// an integer written in the given base, blanks allowed around it
 			str := strings.Trim(string(lv), luaSpace)
+			if base == 16 {
+				// as C's strtoul: an optional 0x or 0X after the optional sign
+				sign, body := "", str
+				if len(body) > 0 && (body[0] == '-' || body[0] == '+') {
+					sign, body = body[:1], body[1:]
+				}
+				if len(body) > 2 && body[0] == '0' && (body[1] == 'x' || body[1] == 'X') {
+					str = sign + body[2:]
+				}
+			}
 			if v, err := strconv.ParseInt(str, base, LNumberBit); err != nil {
 				L.Push(LNil)
 			} else {
